@@ -413,7 +413,7 @@ impl Sm4CipherMode {
     fn cbc_decrypt(&self, data: &[u8], iv: &[u8]) -> Result<Vec<u8>, Sm4Error> {
         let data_len = data.len();
         let block_num = data_len / 16;
-        if data_len % 16 != 0 {
+        if data_len == 0 || data_len % 16 != 0 {
             return Err(Sm4Error::ErrorDataLen);
         }
 
